@@ -1,0 +1,14 @@
+// Verification hooks for the /verif machinery. This module only exists when the crate is
+// compiled with `--cfg parity_db_verif`; nothing here is reachable otherwise.
+
+/// H1: run the vectorised (`fast = true`, whatever `find_entry` dispatches to on this
+/// architecture) or the scalar page search on a 64-entry index page.
+pub fn find_entry(
+	index_bits: u8,
+	key_prefix: u64,
+	sub_index: usize,
+	chunk: &[u8; 512],
+	fast: bool,
+) -> (u64, usize) {
+	crate::index::IndexTable::verif_find_entry(index_bits, key_prefix, sub_index, chunk, fast)
+}
